@@ -125,6 +125,7 @@ class Model:
         self.inline_skip = set()
         self.scanning = False
         self.entries = {}
+        self.undefined_dunders = False
         self.stopped_in = {}
         self.glob['hasattr'] = lambda o, n: ((n in o.__dict__) or (o.__dict__.get('_getattr') is not None and o.__dict__['_getattr'](n) is not OPQ)) if isinstance(o, NS) else OPQ
 
@@ -215,6 +216,8 @@ class Model:
                 return self.entries[name]
             if isinstance(name, str) and name in self.explicit:
                 return NS('entry ' + name, is_special=True) if self.explicit[name] else None
+            if isinstance(name, str) and self.undefined_dunders and re.fullmatch(r'__\w+__', name):
+                return None      # scenario: the class defines no special method other than the one under test
             return OPQ
         if isinstance(f, ast.Name) and env.get(f.id) is not OPQ:
             return NOT_HANDLED
@@ -282,8 +285,9 @@ class Model:
     def interp(self):
         return MiniPy(self.glob, hook=self.hook, on_stop=self.on_stop)
 
-    def run(self, fdef, args, kwargs=None, explicit=None, inline_skip=()):
+    def run(self, fdef, args, kwargs=None, explicit=None, inline_skip=(), undefined_dunders=False):
         self.events, self.calls, self.explicit = [], [], dict(explicit or {})
+        self.undefined_dunders = undefined_dunders
         self.inline_skip = set(inline_skip)
         self.stopped_in = {}
         it = self.interp()
@@ -494,7 +498,9 @@ def field_defaults(model):
         raise AnalysisError('Dataclass.Field.__init__ vanished')
     init = cls.methods['__init__']
     a = init.args
-    params = [p.arg for p in a.args][1:] + [p.arg for p in a.kwonlyargs]
+    positional = [p.arg for p in a.posonlyargs + a.args][1:]          # without self
+    by_keyword = {p.arg for p in a.args + a.kwonlyargs}               # positional-only parameters cannot be set by a keyword
+    params = positional + [p.arg for p in a.kwonlyargs]
     # parameters bound positionally at every Field(...) call site cannot be set by a user's keyword
     npos = None
     for n in ast.walk(model.m.tree):
@@ -503,7 +509,7 @@ def field_defaults(model):
             npos = k if npos is None else min(npos, k)
     if npos is None:
         raise AnalysisError('no Field(...) call site in Dataclass.py')
-    accepted = params[npos:]
+    accepted = [p for p in params[npos:] if p in by_keyword]
     obj = NS('Field', _ctor='Field', _getattr=model.class_getattr(cls))
     it = MiniPy(model.glob, hook=model.hook)
     stopped = None
@@ -516,7 +522,7 @@ def field_defaults(model):
     if stopped is not None:
         for s in stopped.rest:
             for n in ast.walk(s):
-                if isinstance(n, ast.Attribute) and isinstance(n.ctx, ast.Store) and isinstance(n.value, ast.Name) and n.value.id == init.args.args[0].arg and n.attr in accepted:
+                if isinstance(n, ast.Attribute) and isinstance(n.ctx, ast.Store) and isinstance(n.value, ast.Name) and n.value.id == (a.posonlyargs + a.args)[0].arg and n.attr in accepted:
                     raise AnalysisError('Field.__init__ assigns self.%s after a test the checker cannot decide' % n.attr)
     out = {}
     for p in accepted:
@@ -645,7 +651,12 @@ def rule_FLD(model):
         raise AnalysisError('Field.iterate_record_node_arguments: key list cannot be evaluated: %s' % e)
     if not isinstance(keys, (tuple, list)) or not all(isinstance(k, str) for k in keys):
         raise AnalysisError('Field.iterate_record_node_arguments: key list is not a tuple of strings: %r' % (keys,))
-    attrs = model.ix.defined_attrs(cls)
+    attrs = set(model.ix.defined_attrs(cls))
+    for k in model.ix.mro(cls):          # self.<x> = ... in methods whose `self` may be positional-only
+        for meth in k.methods.values():
+            every = meth.args.posonlyargs + meth.args.args
+            if every:
+                attrs |= {n.attr for n in ast.walk(meth) if isinstance(n, ast.Attribute) and isinstance(n.ctx, ast.Store) and isinstance(n.value, ast.Name) and n.value.id == every[0].arg}
     for k in keys:
         key = 'Dataclass.Field.record:' + k
         r.inst(key, sample='recorded key %s' % k)
@@ -772,7 +783,7 @@ def rules_GEN(model, info):
             rv = dict(defaults)
             rv.update(zip(role_names, combo))
             a, k = generator_args(model, g, rv)
-            events, calls = model.run(fdef, a, k, explicit={})
+            events, calls = model.run(fdef, a, k, explicit={}, undefined_dunders=True)
             methods |= {e[1] for e in events if e[0] in ('emit', 'assign-none')}
             for c in calls:
                 vals = [v for v in list(c['args']) + list(c['kwargs'].values()) if isinstance(v, str)]
@@ -792,7 +803,7 @@ def rules_GEN(model, info):
                 for explicit in (False, True):
                     a, k = generator_args(model, g, rv)
                     try:
-                        events, _ = model.run(fdef, a, k, explicit={method: explicit})
+                        events, _ = model.run(fdef, a, k, explicit={method: explicit}, undefined_dunders=True)
                     except Raised as e:
                         key = 'Dataclass.%s:crash' % fdef.name
                         rg.inst(key)
